@@ -141,6 +141,23 @@ pub fn gen_instance(rng: &mut Rng, o: &GenOpts) -> (Value, Value) {
             }
         }
     }
+    // distinct locations may be zero seconds apart (yard next to a station): the dead-head rule
+    // (shunting on both non-depot sides) still applies, only the travel time is 0
+    if n_locs >= 2 && rng.chance(1, 5) {
+        let i = rng.usize(n_locs);
+        let mut j = rng.usize(n_locs);
+        if i == j {
+            j = (j + 1) % n_locs;
+        }
+        tt[i][j] = 0;
+        if rng.chance(2, 3) {
+            tt[j][i] = 0;
+        }
+        if rng.chance(1, 2) {
+            dd[i][j] = 0;
+            dd[j][i] = 0;
+        }
+    }
     // the loader clamps durations above the planning horizon: stay well below one day
     for row in tt.iter_mut() {
         for x in row.iter_mut() {
@@ -235,7 +252,18 @@ pub fn gen_instance(rng: &mut Rng, o: &GenOpts) -> (Value, Value) {
         }
         let mut t = BASE_DAY + 4 * 3600 + rng.range(0, day_span / grid) * grid;
         let mut segs = vec![];
+        // a departure serves the whole route or a contiguous part of it (short-turn service)
+        let (from_seg, to_seg) = if r.segs.len() >= 2 && rng.chance(1, 3) {
+            let a = rng.usize(r.segs.len());
+            let b = a + rng.usize(r.segs.len() - a);
+            (a, b)
+        } else {
+            (0, r.segs.len() - 1)
+        };
         for (k, s) in r.segs.iter().enumerate() {
+            if k < from_seg || k > to_seg {
+                continue;
+            }
             let (cap, seats) = type_caps[r.vt];
             let want = rng.range(1, demand_max as i64) as u64;
             let passengers = if rng.chance(1, 15) {
@@ -245,6 +273,11 @@ pub fn gen_instance(rng: &mut Rng, o: &GenOpts) -> (Value, Value) {
             };
             let seated = if passengers == 0 {
                 0
+            } else if rng.chance(1, 6) {
+                // seats are the binding resource: more vehicles needed for the seated passengers
+                // than for the passengers as a whole
+                let want_seats = (want + rng.range(1, 2) as u64).min(5);
+                (seats * (want_seats - 1) + rng.range(1, seats as i64) as u64).min(passengers)
             } else if rng.chance(1, 4) {
                 // seats may be the binding resource
                 (seats * (want - 1) + rng.range(1, seats as i64) as u64).min(passengers)
